@@ -630,7 +630,8 @@ def r28_strip_complete(ctx):
             ctx.bad(R, f.node, f, what, 'BallotLine.__init__ never consults the withdrawn set: withdrawn candidates stay on the ballots')
         return
     # empty ranks are dropped afterwards and an empty ranking becomes None
-    drops = [n for n in f.own_nodes() if isinstance(n, ast.ListComp) and any('len(' in unparse(c) for g in n.generators for c in g.ifs)]
+    drops = [n for n in f.own_nodes() if isinstance(n, ast.ListComp) and any(
+        isinstance(g.target, ast.Name) and nonempty_filter(c, g.target.id) for g in n.generators for c in g.ifs)]
     ctx.check(bool(drops), R, f.node, f, 'ranks left empty by the strip are dropped', unparse(drops[0]) if drops else '',
               'no statement drops empty ranks', nontrivial=False)
 
@@ -768,6 +769,21 @@ def r29_ballot_count_pairing(ctx):
 # R30
 # ---------------------------------------------------------------------------
 
+def nonempty_filter(cond, var):
+    """cond keeps exactly the non-empty values of var: `var`, `len(var)`, `len(var) > 0`, `len(var) >= 1`, `len(var) != 0`"""
+    def is_len(e):
+        return isinstance(e, ast.Call) and isinstance(e.func, ast.Name) and e.func.id == 'len' and len(e.args) == 1 \
+            and isinstance(e.args[0], ast.Name) and e.args[0].id == var
+    if isinstance(cond, ast.Name) and cond.id == var:
+        return True
+    if is_len(cond):
+        return True
+    if isinstance(cond, ast.Compare) and len(cond.ops) == 1 and is_len(cond.left) and isinstance(cond.comparators[0], ast.Constant):
+        k, op = cond.comparators[0].value, type(cond.ops[0])
+        return (op, k) in ((ast.Gt, 0), (ast.GtE, 1), (ast.NotEq, 0))
+    return False
+
+
 def r30_validation(ctx):
     R = 'R30'
     repo = ctx.repo
@@ -789,9 +805,23 @@ def r30_validation(ctx):
     ctx.check(okr and len(raises) >= 4, R, val.node, val, '__validate rejects with the profile error', '%d raise statements, all ElectionProfileError' % len(raises),
               '__validate raises something else or lost a check (%d raises)' % len(raises), nontrivial=False)
 
+    singles = {nm: d[0][0] for nm, d in val.assigns().items() if len(d) == 1 and isinstance(d[0][0], ast.AST) and isinstance(d[0][1], ast.Assign)
+               and d[0][1] in val.node.body}
+
+    def expand(t):
+        """the test with locals bound once at the top level of __validate replaced by what they are bound to"""
+        import copy as _copy
+
+        class X(ast.NodeTransformer):
+            def visit_Name(self, node):
+                if isinstance(node.ctx, ast.Load) and node.id in singles:
+                    return ast.parse(unparse(singles[node.id]), mode='eval').body
+                return node
+        return X().visit(ast.parse(unparse(t), mode='eval').body)
+
     def has_if(pred):
         for n in val.own_nodes():
-            if isinstance(n, ast.If) and n.body and isinstance(n.body[0], ast.Raise) and pred(n.test):
+            if isinstance(n, ast.If) and n.body and isinstance(n.body[0], ast.Raise) and (pred(n.test) or pred(expand(n.test))):
                 return n
         return None
     seats = has_if(lambda t: 'self.nSeats > len(self.eligible)' in unparse(t) and 'not self.nSeats' in unparse(t))
@@ -805,11 +835,22 @@ def r30_validation(ctx):
         ok = False
         if loops:
             L = loops[0]
+            # per ballot: a fresh accumulator A (dict / set / list), `if x in A: raise`, then x recorded in A (A[x] = .., A.add(x), A.append(x))
+            resets = {n.targets[0].id for n in L.body if isinstance(n, ast.Assign) and len(n.targets) == 1 and isinstance(n.targets[0], ast.Name)
+                      and unparse(n.value) in ('dict()', '{}', 'set()', '[]', 'list()')}
             ifs = [n for n in ast.walk(L) if isinstance(n, ast.If) and n.body and isinstance(n.body[0], ast.Raise)
-                   and isinstance(n.test, ast.Compare) and isinstance(n.test.ops[0], ast.In)]
-            stores = [n for n in ast.walk(L) if isinstance(n, ast.Subscript) and isinstance(n.ctx, ast.Store)]
-            resets = [n for n in L.body if isinstance(n, ast.Assign) and unparse(n.value) in ('dict()', '{}', 'set()')]
-            ok = bool(ifs) and bool(stores) and bool(resets)
+                   and isinstance(n.test, ast.Compare) and len(n.test.ops) == 1 and isinstance(n.test.ops[0], ast.In)
+                   and isinstance(n.test.left, ast.Name) and isinstance(n.test.comparators[0], ast.Name) and n.test.comparators[0].id in resets]
+            ok = False
+            for i_ in ifs:
+                x_, a_ = i_.test.left.id, i_.test.comparators[0].id
+                for n in ast.walk(L):
+                    if isinstance(n, ast.Subscript) and isinstance(n.ctx, ast.Store) and isinstance(n.value, ast.Name) and n.value.id == a_ \
+                            and isinstance(n.slice, ast.Name) and n.slice.id == x_:
+                        ok = True
+                    if isinstance(n, ast.Call) and isinstance(n.func, ast.Attribute) and n.func.attr in ('add', 'append') and isinstance(n.func.value, ast.Name) \
+                            and n.func.value.id == a_ and len(n.args) == 1 and isinstance(n.args[0], ast.Name) and n.args[0].id == x_:
+                        ok = True
         ctx.check(ok, R, loops[0] if loops else val.node, val, 'no accepted ballot in %s ranks a candidate twice' % lst.split('.')[-1],
                   'per ballot: fresh seen-set, `if cid in seen: raise`, seen[cid] = cid', 'duplicate check over %s missing or broken' % lst)
 
@@ -868,25 +909,53 @@ def r52_optional_tail(ctx):
     # end-of-input witnesses
     handlers = {n for n in cfg.nodes if n.kind == 'join' and _is_stopiter_handler(n.ast)}
     wit_edges = set()
+
+    def none_at_end(lhs, at):
+        """every definition of the local reaching the test is `next(<iterator>, None)` or a helper of the class that returns None only
+        at end of input"""
+        rd = reaching_defs(cfg, lhs, at) if lhs.isidentifier() else []
+        if rd and all(d_ is not cfg.entry and d_.kind == 'stmt' and isinstance(d_.ast, ast.Assign) for d_ in rd):
+            defs = [d_.ast.value for d_ in rd]
+        else:
+            defs = [n.ast.value for n in cfg.stmt_nodes() if n.kind == 'stmt' and isinstance(n.ast, ast.Assign) and unparse(n.ast.targets[0]) == lhs]
+        okh = bool(defs)
+        for d_ in defs:
+            if isinstance(d_, ast.Call) and isinstance(d_.func, ast.Name) and d_.func.id == 'next' and len(d_.args) == 2 \
+                    and isinstance(d_.args[1], ast.Constant) and d_.args[1].value is None:
+                continue
+            h = None
+            if isinstance(d_, ast.Call) and isinstance(d_.func, ast.Attribute) and unparse(d_.func.value) == 'self':
+                h = cls.methods.get(cls.mangle(d_.func.attr)) or cls.methods.get(d_.func.attr)
+            elif isinstance(d_, ast.Call) and isinstance(d_.func, ast.Name):
+                h = p.children.get(d_.func.id)          # a helper nested in the parser
+            if h is None or not _none_only_at_end_of_input(h):
+                okh = False
+        return okh
+
+    def witness(tt, at):
+        """the truth value of the test that witnesses 'no further quoted token' (True / False), or None"""
+        if _is_unquoted_test(tt):
+            return True
+        if isinstance(tt, ast.Call) and isinstance(tt.func, ast.Attribute) and tt.func.attr == 'startswith' and tt.args and const_str(tt.args[0]) == '"':
+            return False
+        if isinstance(tt, ast.Compare) and len(tt.ops) == 1 and isinstance(tt.comparators[0], ast.Constant) and tt.comparators[0].value is None \
+                and isinstance(tt.ops[0], (ast.Is, ast.IsNot)) and none_at_end(unparse(tt.left), at):
+            return isinstance(tt.ops[0], ast.Is)
+        if isinstance(tt, ast.UnaryOp) and isinstance(tt.op, ast.Not):
+            w = witness(tt.operand, at)
+            return None if w is None else (not w)
+        if isinstance(tt, ast.BoolOp):
+            ws = [witness(v, at) for v in tt.values]
+            if isinstance(tt.op, ast.Or) and all(w is True for w in ws):
+                return True         # any disjunct true: end of input or unquoted material
+            if isinstance(tt.op, ast.And) and all(w is False for w in ws):
+                return False        # the conjunction fails only when one of them witnesses the end
+        return None
     for t in cfg.nodes:
         if t.kind == 'test' and isinstance(t.ast, ast.If):
-            if _is_unquoted_test(t.ast.test):
-                wit_edges.add((t, True))
-            tt = t.ast.test
-            if isinstance(tt, ast.Compare) and len(tt.ops) == 1 and isinstance(tt.comparators[0], ast.Constant) and tt.comparators[0].value is None \
-                    and isinstance(tt.ops[0], (ast.Is, ast.IsNot)):
-                # X is None, X assigned from a helper that returns None only at end of input
-                lhs = unparse(tt.left)
-                defs = [n.ast.value for n in cfg.stmt_nodes() if n.kind == 'stmt' and isinstance(n.ast, ast.Assign) and unparse(n.ast.targets[0]) == lhs]
-                okh = bool(defs)
-                for d_ in defs:
-                    h = None
-                    if isinstance(d_, ast.Call) and isinstance(d_.func, ast.Attribute) and unparse(d_.func.value) == 'self':
-                        h = cls.methods.get(cls.mangle(d_.func.attr)) or cls.methods.get(d_.func.attr)
-                    if h is None or not _none_only_at_end_of_input(h):
-                        okh = False
-                if okh:
-                    wit_edges.add((t, isinstance(tt.ops[0], ast.Is)))
+            w = witness(t.ast.test, t)
+            if w is not None:
+                wit_edges.add((t, w))
 
     def edge_ok(a, b, lab):
         return (a, lab) not in wit_edges
@@ -1174,7 +1243,8 @@ def _subscript_safe(ctx, f, node):
                         # the iterated list was itself built with a len() filter
                         rd = reaching_defs(cfg, g.iter.id, at) if at is not None else []
                         if rd and all(d is not cfg.entry and isinstance(d.ast, ast.Assign) and isinstance(d.ast.value, ast.ListComp)
-                                      and any('len(' in unparse(c) for gg in d.ast.value.generators for c in gg.ifs) for d in rd):
+                                      and any(isinstance(gg.target, ast.Name) and nonempty_filter(c, gg.target.id)
+                                              for gg in d.ast.value.generators for c in gg.ifs) for d in rd):
                             return True, 'element of a list filtered on len(...) (non-empty ranks)'
             n = n.parent
     # result of str.split(...)[0]
